@@ -6,6 +6,11 @@
                        returned (iteration starts in the `for` statement inside the `try`, `close` is looked up on that
                        object), or `iter(...)` of it taken before the `try` (then `close` is looked up on the iterator and an
                        exception from `__iter__` escapes the `try/finally`)
+  asyncioCallSoonWaits / trioCallSoonWaits
+                       whether the `call_soon` each worker's TaskGroup.spawn_app hands to the application wrapper (the function
+                       WSGIWrapper.run_app sends every ASGI message through, from its thread) returns only after the send has
+                       completed: asyncio `_call_soon` = `run_coroutine_threadsafe(func(*args), self._loop)` followed by
+                       `.result()`, trio `trio.from_thread.run`; the `sync_spawn` next to it must be the executor / to_thread
   fromObjectFilter     the conjuncts of the filter in `Config.from_object`'s dict comprehension (which attributes of the
                        object are dropped before `from_mapping`)
   redirectPathSource   the scope key `HTTPToHTTPSRedirectMiddleware._new_url` builds the path of the Location from
@@ -68,6 +73,51 @@ def wsgi_body_binding(src: Path, ex: Any) -> Optional[str]:
         ex.fail("wsgiBodyBinding", "run_app: further close()/iter()/next() calls")
         return None
     return binding
+
+
+def call_soon_waits(src: Path, ex: Any) -> Optional[dict]:
+    out = {}
+    # asyncio
+    fn = ex.find_def(ex.parse(src / "asyncio" / "task_group.py"), "TaskGroup", "spawn_app")
+    if fn is None:
+        ex.fail("asyncioCallSoonWaits", "asyncio TaskGroup.spawn_app not found")
+        return None
+    inner = [n for n in fn.body if isinstance(n, ast.FunctionDef) and n.name == "_call_soon"]
+    spawns = [n for n in ast.walk(fn) if isinstance(n, ast.Call) and _norm(n.func) == "self.spawn" and n.args and _norm(n.args[0]) == "_handle"]
+    if len(inner) != 1 or len(spawns) != 1 or len(spawns[0].args) != 8:
+        ex.fail("asyncioCallSoonWaits", "spawn_app: expected one nested `_call_soon` and one `self.spawn(_handle, …7 arguments)`")
+        return None
+    if _norm(spawns[0].args[-1]) != "_call_soon" or _norm(spawns[0].args[-2]) != "partial(self._loop.run_in_executor, None)":
+        ex.fail("asyncioCallSoonWaits", f"_handle is given sync_spawn=`{_norm(spawns[0].args[-2])}`, call_soon=`{_norm(spawns[0].args[-1])}`")
+        return None
+    sched = "asyncio.run_coroutine_threadsafe(func(*args), self._loop)"
+    body = [_norm(st) for st in inner[0].body if not (isinstance(st, ast.Expr) and isinstance(st.value, ast.Constant))]
+    if body in ([f"future = {sched}", "return future.result()"], [f"return {sched}.result()"]):
+        out["asyncio"] = True
+    elif body in ([f"return {sched}"], [sched], [f"future = {sched}", "return future"]):
+        out["asyncio"] = False
+    else:
+        ex.fail("asyncioCallSoonWaits", f"unrecognised `_call_soon` body {body}")
+        return None
+    # trio
+    fn = ex.find_def(ex.parse(src / "trio" / "task_group.py"), "TaskGroup", "spawn_app")
+    starts = [] if fn is None else [n for n in ast.walk(fn) if isinstance(n, ast.Call) and _norm(n.func) == "self._nursery.start_soon"
+                                    and n.args and _norm(n.args[0]) == "_handle"]
+    if len(starts) != 1 or len(starts[0].args) != 8:
+        ex.fail("trioCallSoonWaits", "trio TaskGroup.spawn_app: expected one `self._nursery.start_soon(_handle, …7 arguments)`")
+        return None
+    if _norm(starts[0].args[-2]) != "trio.to_thread.run_sync":
+        ex.fail("trioCallSoonWaits", f"_handle is given sync_spawn=`{_norm(starts[0].args[-2])}`")
+        return None
+    cs = _norm(starts[0].args[-1])
+    if cs == "trio.from_thread.run":
+        out["trio"] = True          # runs the async function in the trio thread and returns its result
+    elif cs == "trio.from_thread.run_sync":
+        out["trio"] = False         # would only create the coroutine object
+    else:
+        ex.fail("trioCallSoonWaits", f"_handle is given call_soon=`{cs}`")
+        return None
+    return out
 
 
 def from_object_filter(src: Path, ex: Any) -> Optional[List[str]]:
@@ -159,10 +209,15 @@ def run(src: Path, ex: Any) -> dict:
     files = {}
     ex.CURRENT[0] = "WsgiSites"
     b = wsgi_body_binding(src, ex)
+    cs = call_soon_waits(src, ex)
     files["WsgiSites"] = _file(
         "what WSGIWrapper.run_app (app_wrappers.py) iterates and closes",
         "/-- the object the application returned, or `iter()` of it taken before the `try` -/\ninductive BodyBinding | returned | iterOf",
-        None if b is None else f"def wsgiBodyBinding : BodyBinding := .{b}", "WsgiSites")
+        None if b is None or cs is None else
+        f"def wsgiBodyBinding : BodyBinding := .{b}\n\n"
+        "/-- `call_soon(send, message)` returns only after the send completed (asyncio/task_group.py, trio/task_group.py) -/\n"
+        f"def asyncioCallSoonWaits : Bool := {str(cs['asyncio']).lower()}\n"
+        f"def trioCallSoonWaits : Bool := {str(cs['trio']).lower()}", "WsgiSites")
     ex.CURRENT[0] = "ConfigSites"
     f = from_object_filter(src, ex)
     files["ConfigSites"] = _file(
